@@ -47,4 +47,27 @@ def prove_all():
     step = z3.Implies(z3.And(i >= 0, G(i) == A(i) + ci, ci1 == ci + c,                      # c*(i+1) = c*i + c
                              G(i + 1) == G(i) + (a(i) + c), A(i + 1) == A(i) + a(i)), G(i + 1) == A(i + 1) + ci1)
     out.append(("L5 prefix sum of (a + c) = prefix sum of a + c*i", _valid(base) and _valid(step)))
+    # L6 congruence: f(k) == g(k) on [0,n)  =>  F(i) == G(i) on [0,n]
+    Ff, Gg, g = z3.Function("Ff", Int, Int), z3.Function("Gg", Int, Int), z3.Function("g", Int, Int)
+    base = z3.Implies(z3.And(Ff(0) == 0, Gg(0) == 0), Ff(0) == Gg(0))
+    step = z3.Implies(z3.And(i >= 0, i < n, Ff(i) == Gg(i), f(i) == g(i), Ff(i + 1) == Ff(i) + f(i), Gg(i + 1) == Gg(i) + g(i)), Ff(i + 1) == Gg(i + 1))
+    out.append(("L6 equal summands => equal prefix sums", _valid(base) and _valid(step)))
     return out
+
+
+def check_lean(relpath, timeout=300):
+    """run the Lean 4 kernel on a lemma file of /verif/lean (no Mathlib import): True iff it is accepted without error or `sorry`"""
+    import os, shutil, subprocess
+    root = os.path.dirname(os.path.dirname(os.path.abspath(__file__)))
+    path = os.path.join(root, relpath)
+    exe = shutil.which("lean")
+    if exe is None or not os.path.exists(path):
+        return False, "lean not available"
+    if "sorry" in open(path).read():
+        return False, "file contains sorry"
+    try:
+        r = subprocess.run([exe, path], capture_output=True, text=True, timeout=timeout, cwd=os.path.dirname(path))
+    except Exception as e:
+        return False, repr(e)
+    ok = r.returncode == 0 and "error" not in r.stdout.lower() and "error" not in r.stderr.lower()
+    return ok, (r.stdout + r.stderr)[-400:]
